@@ -151,8 +151,12 @@ func (c *concurrentCase) judge(t world.TB, how string) {
 		ids[id] = true
 	}
 	for i, f := range c.pre {
-		if i >= len(feats) || !same(feats[i], f) {
-			world.Fail(t, "C07/concurrent/earlier-feature-lost", "%s: feature #%d attached before the calls is no longer in place%s", how, i, render())
+		kept := false
+		for _, g := range feats {
+			kept = kept || same(g, f)
+		}
+		if !kept {
+			world.Fail(t, "C07/concurrent/earlier-feature-lost", "%s: feature #%d attached before the calls is no longer attached%s", how, i, render())
 		}
 	}
 	for i, r := range c.results {
@@ -171,6 +175,8 @@ func (c *concurrentCase) judge(t world.TB, how string) {
 func TestGetOrAddInterleavings(t *testing.T) {
 	replay := sched.LoadReplay("TestGetOrAddInterleavings")
 	total, nontrivial, reached, failing := 0, 0, 0, 0
+	const maxSchedules = 400
+	exhaustive := replay == nil
 	for _, threads := range []int{2, 3} {
 		for vi, v := range variants {
 			threads, vi, v := threads, vi, v
@@ -220,14 +226,17 @@ func TestGetOrAddInterleavings(t *testing.T) {
 				judge(sched.RunChoices(ops, []string{getOrAddPoint}, replay.Choices))
 				continue
 			}
-			n := sched.Enumerate([]string{getOrAddPoint}, 400, scenario)
+			n := sched.Enumerate([]string{getOrAddPoint}, maxSchedules, scenario)
 			world.AddExtra("schedules", int64(n))
+			if n >= maxSchedules {
+				exhaustive = false
+			}
 			if t.Failed() {
 				return
 			}
 		}
 	}
-	world.SetExtra("schedule_enumeration_exhaustive", replay == nil)
+	world.SetExtra("schedule_enumeration_exhaustive", exhaustive)
 	world.SetExtra("yield_point_reached", reached > 0)
 	world.SetExtra("schedules_nontrivial", nontrivial)
 	world.SetExtra("schedules_ending_in_known_finding", failing)
@@ -312,4 +321,24 @@ func TestGetOrAddStress(t *testing.T) {
 	world.SetExtra("stress_rounds_with_contended_window", windows)
 	world.SetExtra("stress_rounds_ending_in_known_finding", failing)
 	t.Logf("rounds=%d contended=%d known-finding=%d", rounds, windows, failing)
+}
+
+// TestGetOrAddRegressionF23a replays the shrunk schedule that exposed F23a: two callers, both miss
+// the lookup, then both create.
+func TestGetOrAddRegressionF23a(t *testing.T) {
+	c := newConcurrentCase(variants[0], 2)
+	defer c.w.Teardown()
+	var ops []sched.Op
+	for i := range c.calls {
+		i := i
+		ops = append(ops, sched.Op{Name: fmt.Sprintf("caller%d", i+1), Fn: func() { c.call(i) }})
+	}
+	r := sched.RunChoices(ops, []string{getOrAddPoint}, []int{0, 1, 0})
+	world.Record(world.Hash("regression", "F23a"), r.Parked[getOrAddPoint] >= 2, "regression/F23a")
+	world.Guard(func() {
+		if len(r.Panics) > 0 || r.Deadlock {
+			world.Fail(t, "C07/concurrent/panic-or-deadlock", "schedule %s: panics=%v deadlock=%v", r, r.Panics, r.Deadlock)
+		}
+		c.judge(t, fmt.Sprintf("regression F23a, schedule [%s]", r))
+	})
 }
